@@ -3,26 +3,26 @@ package main
 // Path-wise symbolic execution of go/ssa with loop cutting and obligation generation.
 
 import (
-	"os"
 	"fmt"
 	"go/constant"
 	"go/token"
 	"go/types"
+	"os"
 	"strings"
 
 	"golang.org/x/tools/go/ssa"
 )
 
 type Config struct {
-	MaxPaths   int
-	MaxDepth   int
-	Kinds      map[string]bool // obligation kinds to generate
-	Modular    bool            // use contracts of callees that have one
-	MaxSteps   int  // basic-block budget of one symbolic run (0 = none)
-	CrossCheck bool // thorough tier: every SMT query goes to all back ends
-	PhaseB     func(fn *ssa.Function) bool
-	InScope    func(fn *ssa.Function) bool // repo function whose body may be inlined
-	CheckFrame bool
+	MaxPaths       int
+	MaxDepth       int
+	Kinds          map[string]bool // obligation kinds to generate
+	Modular        bool            // use contracts of callees that have one
+	MaxSteps       int             // basic-block budget of one symbolic run (0 = none)
+	CrossCheck     bool            // thorough tier: every SMT query goes to all back ends
+	PhaseB         func(fn *ssa.Function) bool
+	InScope        func(fn *ssa.Function) bool // repo function whose body may be inlined
+	CheckFrame     bool
 	AllowRecursion bool // EMIT mode: concrete models, recursion bounded by the model's shape
 	ConcreteMaps   bool // EMIT mode: iterate maps with fully known content concretely
 }
